@@ -1360,3 +1360,316 @@ func init() {
 		}
 	})
 }
+
+func init() {
+	extendProp("C38", "Logs are flagged as removed only on freshly decoded receipts: the function that sets Log.Removed obtains its receipts from the database decoder and calls no reader of the shared receipts cache, so receipts served to other readers (and re-emitted when the block becomes canonical again) are never marked removed.", nil, func(c *Ctx) {
+		c.Rule("IMMUT/C38.cachedreceipts")
+		readers := map[string]bool{}
+		for _, f := range c.AllFuncs("core") {
+			uses := false
+			eachInstr(f, func(in ssa.Instruction) {
+				if fa, ok := in.(*ssa.FieldAddr); ok && fieldAddrName(fa) == "core.BlockChain.receiptsCache" {
+					uses = true
+				}
+			})
+			if uses && len(c.Calls(f, "*.Get")) > 0 {
+				readers[fnName(f)] = true
+			}
+		}
+		c.Expect(2, len(readers), "functions reading the receipts cache")
+		n := 0
+		for _, f := range c.AllFuncs("core") {
+			var marks []Site
+			eachInstr(f, func(in ssa.Instruction) {
+				if st, ok := in.(*ssa.Store); ok {
+					if fa, ok := st.Addr.(*ssa.FieldAddr); ok && fieldAddrName(fa) == "core/types.Log.Removed" && ConstBool(true)(st.Val) {
+						marks = append(marks, Site{f, in})
+					}
+				}
+			})
+			if len(marks) == 0 {
+				continue
+			}
+			n++
+			c.Funcs[f] = true
+			bad := ""
+			eachInstr(f, func(in ssa.Instruction) {
+				if call, ok := in.(ssa.CallInstruction); ok {
+					if cal := call.Common().StaticCallee(); cal != nil && readers[fnName(cal)] {
+						bad = fnName(cal)
+					}
+				}
+			})
+			fresh := len(c.Calls(f, "core/rawdb.ReadRawReceipts|core/rawdb.ReadReceipts")) > 0
+			c.Check(bad == "" && fresh, "fresh-receipts/"+fnName(f), marks[0].Pos(), "logs marked removed belong to receipts decoded for this call", "logs are marked removed on receipts obtained through "+bad+" (shared receipts cache) rather than decoded afresh: the cached objects other readers get, and the logs re-emitted if the block becomes canonical again, keep Removed=true")
+		}
+		c.Expect(1, n, "functions that flag logs as removed")
+	})
+}
+
+func init() {
+	extendProp("C39", "In the hash-scheme node database a node is moved into the write batch only after all of its children were (recursively, errors tested): the state root is the last node of a commit to reach disk, so the root-presence test used by the startup repair implies the whole state is present.", []string{"triedb/hashdb"}, func(c *Ctx) {
+		c.Rule("ORDER/C39.childrenfirst")
+		h := "triedb/hashdb"
+		f := c.Fn(h, "(*Database).commit")
+		if f == nil {
+			return
+		}
+		wr := c.Calls(f, "core/rawdb.WriteLegacyTrieNode")
+		c.Expect(1, len(wr), "node write in hashdb commit")
+		fc := c.Calls(f, "(*"+h+".cachedNode).forChildren")
+		c.Dom("children-before-node", f, wr, "node written to the batch", GSites("node.forChildren(commit child)", fc))
+		// the callback recurses into commit
+		rec := 0
+		for _, s := range fc {
+			if mc, ok := s.Instr.(*ssa.Call).Call.Args[1].(*ssa.MakeClosure); ok {
+				w := mc.Fn.(*ssa.Function)
+				c.Funcs[w] = true
+				rec += len(c.Calls(w, "(*"+h+".Database).commit"))
+			}
+		}
+		c.Check(rec == 1, "recurses/"+fnName(f), f.Pos(), "the children callback commits each child", "the children callback of commit no longer commits the children")
+	})
+}
+
+func init() {
+	extendProp("C41", "A replacement is inserted into the sender's pending list only on a lookup of that list made after the pool-full eviction: no removeTx call lies between the pending-list lookup whose result receives list.Add and that insertion (an eviction can demote the very nonce being replaced).", nil, func(c *Ctx) {
+		c.Rule("STALE/C41.pendinglookup")
+		lp := "core/txpool/legacypool"
+		f := c.Fn(lp, "(*LegacyPool).add")
+		if f == nil {
+			return
+		}
+		c.Funcs[f] = true
+		adds := c.Calls(f, "(*"+lp+".list).Add")
+		c.Expect(1, len(adds), "list.Add in LegacyPool.add")
+		evict := c.Calls(f, "(*"+lp+".LegacyPool).removeTx")
+		c.Expect(1, len(evict), "removeTx (eviction) in LegacyPool.add")
+		for _, a := range adds {
+			recv := a.Instr.(*ssa.Call).Call.Args[0]
+			// root lookup(s) of the receiver
+			var lookups []ssa.Instruction
+			seen := map[ssa.Value]bool{}
+			var walk func(v ssa.Value)
+			walk = func(v ssa.Value) {
+				if seen[v] {
+					return
+				}
+				seen[v] = true
+				switch x := v.(type) {
+				case *ssa.Lookup:
+					if matchField(fieldOfLoad(x.X), lp+".LegacyPool.pending") {
+						lookups = append(lookups, x)
+					}
+				case *ssa.Extract:
+					walk(x.Tuple)
+				case *ssa.Phi:
+					for _, e := range x.Edges {
+						walk(e)
+					}
+				case *ssa.UnOp:
+					if al, ok := x.X.(*ssa.Alloc); ok {
+						for _, r := range *al.Referrers() {
+							if st, ok := r.(*ssa.Store); ok && st.Addr == ssa.Value(al) {
+								walk(st.Val)
+							}
+						}
+					}
+				}
+			}
+			walk(recv)
+			if len(lookups) == 0 {
+				c.Undecided("fresh-lookup/"+fnName(f), a.Pos(), "the list receiving the replacement could not be traced to a lookup of pool.pending")
+				continue
+			}
+			stale := ""
+			for _, l := range lookups {
+				for _, m := range evict {
+					if instrReaches(l, m.Instr) && instrReaches(m.Instr, a.Instr) {
+						stale = c.pos(m.Pos())
+					}
+				}
+			}
+			c.Check(stale == "", "fresh-lookup/"+fnName(f), a.Pos(), "the pending list is looked up after the eviction loop", "the pending list receiving the replacement was looked up before the eviction at "+stale+": evicting one of the sender's own lower nonces demotes the replaced nonce (or deletes the list), and the insert then creates a gapped or orphaned pending list")
+		}
+		// the same holds for the gap test guarding the eviction: it is evaluated on current state (a call, not a cached flag)
+		gaps := c.Calls(f, "(*"+lp+".LegacyPool).isGapped")
+		c.Check(len(gaps) >= 1, "gap-test/"+fnName(f), f.Pos(), "the future-transaction guard calls isGapped", "LegacyPool.add no longer evaluates isGapped before churning pending transactions")
+	})
+}
+
+func init() {
+	extendProp("C42", "After a reorg-driven recheck the account's position in the eviction heap is restored: every return of recheck lies behind heap.Fix or heap.Remove of the account, the account not being indexed, or the call not being reorg-driven (inclusions == nil) — reinject pushes accounts and lower nonces into the heap without sifting and relies on it.", nil, func(c *Ctx) {
+		c.Rule("HEAPFIX/C42.recheck")
+		bp := "core/txpool/blobpool"
+		f := c.Fn(bp, "(*BlobPool).recheck")
+		if f == nil {
+			return
+		}
+		fix := c.Calls(f, "container/heap.Fix")
+		rem := c.Calls(f, "container/heap.Remove")
+		c.Expect(1, len(fix), "heap.Fix in recheck")
+		notIndexed := Guard{Desc: "account not indexed", Steps: []Step{{Edges: map[Edge]bool{}}}}
+		eachInstr(f, func(in ssa.Instruction) {
+			lk, ok := in.(*ssa.Lookup)
+			if !ok || !lk.CommaOk || !matchField(fieldOfLoad(lk.X), bp+".BlobPool.index") {
+				return
+			}
+			for e := range EdgesWhere(f, False(func(v ssa.Value) bool {
+				ex, ok := v.(*ssa.Extract)
+				return ok && ex.Tuple == ssa.Value(lk) && ex.Index == 1
+			})) {
+				notIndexed.Steps[0].Edges[e] = true
+			}
+		})
+		notIndexed.Sites = len(notIndexed.Steps[0].Edges)
+		var rets []Site
+		for _, r := range c.Returns(f) {
+			if r.Instr.Block() != f.Recover {
+				rets = append(rets, r)
+			}
+		}
+		c.Dom("heap-restored", f, rets, "return", GSites("heap.Fix(p.evict, …)", fix), GSites("heap.Remove(p.evict, …)", rem), notIndexed,
+			GCond("inclusions == nil", f, Cmp(Param("inclusions"), token.EQL, Nil())),
+			GCond("p.index[addr] == nil", f, Cmp(func(v ssa.Value) bool {
+				isIdx := func(x ssa.Value) bool {
+					lk, ok := x.(*ssa.Lookup)
+					return ok && matchField(fieldOfLoad(lk.X), bp+".BlobPool.index")
+				}
+				if isIdx(v) {
+					return true
+				}
+				// a local cell still holding the lookup (no other store reaches this read)
+				u, ok := v.(*ssa.UnOp)
+				if !ok {
+					return false
+				}
+				al, ok := u.X.(*ssa.Alloc)
+				if !ok {
+					return false
+				}
+				holds := false
+				for _, r := range *al.Referrers() {
+					st, ok := r.(*ssa.Store)
+					if !ok || st.Addr != ssa.Value(al) {
+						continue
+					}
+					if isIdx(st.Val) && instrDominates(st, u) {
+						holds = true
+					} else if instrReaches(st, u) {
+						return false
+					}
+				}
+				return holds
+			}, token.EQL, Nil())))
+		// reinject's raw push is only reachable from the reorg path that rechecks afterwards
+		if ri := c.TryFn(bp, "(*BlobPool).reinject"); ri != nil {
+			c.Funcs[ri] = true
+			raw := c.Calls(ri, "(*"+bp+".evictHeap).Push")
+			sift := c.Calls(ri, "container/heap.Push|container/heap.Fix")
+			if len(raw) > 0 && len(sift) == 0 {
+				// callers must recheck with inclusions
+				n := 0
+				for _, g := range c.AllFuncs(bp) {
+					rc := c.Calls(g, "(*"+bp+".BlobPool).reinject")
+					if len(rc) == 0 {
+						continue
+					}
+					n++
+					c.Funcs[g] = true
+					c.Followed("reinject-then-recheck", g, rc, "reinject", c.Calls(g, "(*"+bp+".BlobPool).recheck"), "p.recheck(addr, inclusions)", c.Returns(g))
+				}
+				c.Expect(1, n, "callers of reinject")
+			}
+		}
+	})
+}
+
+func init() {
+	extendProp("C43", "The effective tip that orders the heap is computed without wrap-around: the ordering package performs no unchecked 256-bit addition or multiplication on fee values, and every 256-bit subtraction a−b lies behind an established a ≥ b.", nil, func(c *Ctx) {
+		c.Rule("OVF/C43.tip")
+		pk := "core/txpool/txorder"
+		u := "(*github.com/holiman/uint256.Int)."
+		nSub := 0
+		for _, f := range c.AllFuncs(pk) {
+			for _, s := range c.Calls(f, u+"Add|"+u+"Mul|"+u+"Lsh") {
+				c.Funcs[f] = true
+				c.Bad("wrapping/"+fnName(f), s.Pos(), fnName(f)+" computes a fee with "+calleeName(s.Instr.(*ssa.Call).Common())+", which wraps silently at 2^256: a head with a near-maximal tip cap is ranked by an overstated tip (use the fee-cap − base-fee form or AddOverflow with the flag tested)")
+			}
+			for _, s := range c.Calls(f, u+"Sub") {
+				nSub++
+				c.Funcs[f] = true
+				a := callArgs(&s.Instr.(*ssa.Call).Call)
+				c.Dom("sub-guarded", f, []Site{s}, "256-bit subtraction", GCond("minuend >= subtrahend", f, Cmp(func(v ssa.Value) bool { return sameValue(v, a[0]) }, token.GEQ, func(v ssa.Value) bool { return sameValue(v, a[1]) })))
+			}
+		}
+		c.Expect(1, nSub, "256-bit subtractions in the ordering package")
+		if nSub > 0 {
+			c.OK("no-wrapping-add", token.NoPos, "no wrapping 256-bit Add/Mul/Lsh in the ordering package (any found is reported above)")
+		}
+	})
+}
+
+func init() {
+	extendProp("C44", "The shared write buffer of the RLPx transport holds exactly the payload being sent: in WriteMsg the buffer is reset (not deferred) before the payload is copied into it, on every path to the copy, so bytes left by an earlier failed write never precede the next message.", []string{"p2p"}, func(c *Ctx) {
+		c.Rule("ORDER/C44.wbuf")
+		f := c.Fn("p2p", "(*rlpxTransport).WriteMsg")
+		if f == nil {
+			return
+		}
+		isWbuf := func(v ssa.Value) bool {
+			fa, ok := v.(*ssa.FieldAddr)
+			return ok && fieldAddrName(fa) == "p2p.rlpxTransport.wbuf"
+		}
+		cp := c.CallsWhere(f, "io.CopyN|io.Copy", func(cc *ssaCall) bool { return isWbuf(ifaceSrc(cc.Args[0])) })
+		c.Expect(1, len(cp), "payload copy into the write buffer")
+		var resets []Site
+		for _, s := range c.Calls(f, "(*bytes.Buffer).Reset") {
+			if call, ok := s.Instr.(*ssa.Call); ok && isWbuf(call.Call.Args[0]) { // *ssa.Call only: a deferred Reset is not one
+				resets = append(resets, s)
+			}
+		}
+		c.Dom("reset-before-copy", f, cp, "payload copied into wbuf", GSites("t.wbuf.Reset()", resets))
+		wr := c.Calls(f, "(*p2p/rlpx.Conn).Write")
+		c.Dom("copy-before-write", f, wr, "frame written", GErrChecked("io.CopyN(&t.wbuf, payload, size)", cp))
+	})
+}
+
+func init() {
+	extendProp("C02", "Attaching a sidecar does not carry the receiver's cached size over: WithBlobTxSidecar stores no size into the copy unless the receiver is known to have no sidecar (the cached size already includes any sidecar it carries).", nil, func(c *Ctx) {
+		c.Rule("SAMEVAL/C02.withsize")
+		ct := "core/types"
+		f := c.Fn(ct, "(*Transaction).WithBlobTxSidecar")
+		if f == nil {
+			return
+		}
+		c.Funcs[f] = true
+		var sizeStores []Site
+		eachInstr(f, func(in ssa.Instruction) {
+			call, ok := in.(*ssa.Call)
+			if !ok || len(call.Call.Args) == 0 {
+				return
+			}
+			cal := call.Call.StaticCallee()
+			if cal == nil || cal.Name() != "Store" {
+				return
+			}
+			if fa, ok := call.Call.Args[0].(*ssa.FieldAddr); ok && fieldAddrName(fa) == ct+".Transaction.size" {
+				sizeStores = append(sizeStores, Site{f, in})
+			}
+		})
+		if len(sizeStores) == 0 {
+			c.OK("size-not-carried/"+fnName(f), f.Pos(), "the copy's size cache is left empty (recomputed with the new sidecar on demand)")
+			return
+		}
+		isSidecar := func(v ssa.Value) bool {
+			u, ok := v.(*ssa.UnOp)
+			if !ok {
+				return false
+			}
+			fa, ok := u.X.(*ssa.FieldAddr)
+			return ok && fieldAddrName(fa) == ct+".BlobTx.Sidecar"
+		}
+		c.Dom("size-not-carried", f, sizeStores, "size cached on the copy", GCond("receiver has no sidecar", f, Cmp(isSidecar, token.EQL, Nil())))
+	})
+}
